@@ -203,6 +203,26 @@ def main():
         print("(iv) %-86s -> Apalache: %s" % ("MapRef: " + title, "refuted" if any(outs) else "NOT DETECTED"))
         ok &= any(outs)
         shutil.rmtree(d, ignore_errors=True)
+    # ---------------------------------------------------------------- (v) TLAPS: wrong statements are not provable
+    for mod, title, old, new in [
+        ("MapProof.tla", "swap-remove leaves the key set unchanged", "PROVE  Ks' = Ks \\ {slots[i]}", "PROVE  Ks' = Ks"),
+        ("MapProofRetain.tla", "retain advances after a removal", "ELSE ri' = ri /\\ SwapRemove(ri)", "ELSE ri' = ri + 1 /\\ SwapRemove(ri)"),
+        ("MapProofEq.tla", "== without the length comparison", "  /\\ Len(a) = Len(b)\n  /\\ \\A i \\in 1..Len(a) : \\E j", "  /\\ TRUE\n  /\\ \\A i \\in 1..Len(a) : \\E j"),
+        ("MapProofDisj.tla", "requests need not be pairwise different", "  /\\ Q \\in Seq(Keys) /\\ NoRepeat(Q)", "  /\\ Q \\in Seq(Keys)"),
+    ]:
+        d = fresh("tlaps")
+        p = os.path.join(d, mod)
+        t = open(p).read()
+        if old not in t:
+            print("(v) %s: the text to mutate was not found in %s" % (title, mod))
+            ok = False
+            continue
+        open(p, "w").write(t.replace(old, new))
+        q = subprocess.run(["timeout", "900", "tlapm", "--threads", "8", "--cleanfp", mod], cwd=d, stdout=subprocess.PIPE, stderr=subprocess.STDOUT, text=True)
+        failed = "obligations failed" in q.stdout
+        print("(v) %-86s -> TLAPS: %s" % (mod + ": " + title, "not provable (as it should be)" if failed else "PROVED?!"))
+        ok &= failed
+        shutil.rmtree(d, ignore_errors=True)
     print("selftest", "ok" if ok else "FAILED")
     return 0 if ok else 1
 
